@@ -88,6 +88,19 @@ class C01(Check):
         for b in G.BCJ_ALT:
             fams.append([{"id": b}, {"id": G.F_COPY}])
             fams.append([{"id": b}, {"id": G.F_ZSTD, "level": 1}])
+        # solid blocks whose members sit around the I/O block (patched to 1 KiB) behind decoders that hand back whole blocks
+        # (Copy, 7zAES): one member leaves a read-ahead remainder, the next is served from it, the third needs another block
+        k = 20000
+        grid = [10, 300, 700, 900, 1100]
+        import itertools as _it
+
+        for sizes in _it.product(grid, repeat=4):
+            for chain, pw in (([{"id": G.F_COPY}], None), ([{"id": G.F_COPY}, {"id": G.F_AES}], "pw")):
+                k += 1
+                if not env.mine(k) or (env.quick and pw and k % 4):
+                    continue
+                yield {"members": [{"name": "s%d.bin" % j, "data": ["gen", "random", n, k + j], "api": "writestr-bytes"} for j, n in enumerate(sizes)],
+                       "filters": chain, "password": pw, "header": "raw", "target": "bytesio", "block": 1024, "chunk": [None, 64, 4096][k % 3], "volume": 64}
         lengths = list(G.BOUNDARY_LENGTHS)
         if not env.quick:
             lengths += G.BIG_LENGTHS
